@@ -137,6 +137,23 @@ func wdHasAlt(e *vexpr) bool {
 	return wdHasAlt(e.L) || wdHasAlt(e.R) || wdHasAlt(e.E)
 }
 
+// wdHasOp: the expression contains an operator (default, alternative, error) or a computed name
+func wdHasOp(e *vexpr) bool {
+	if e == nil {
+		return false
+	}
+	switch e.T {
+	case "def", "alt", "err", "ind":
+		return true
+	}
+	for _, p := range e.Ps {
+		if wdHasOp(p) {
+			return true
+		}
+	}
+	return false
+}
+
 // wdCyclic: the settings form a reference cycle (statically)
 func wdCyclic(ex map[string]*vexpr) bool {
 	succ := map[string]map[string]bool{"n": {"n.k": true}}
@@ -344,10 +361,22 @@ func varexpDrive(args []string) int {
 		for _, r := range o.Reads {
 			reads = append(reads, map[string]interface{}{"name": r.Name, "str": r.Str, "typed": wdTyped(r.Typed), "has": r.Has})
 		}
+		unpack := wdTyped(o.Unpack)
+		hasOp := false
+		for _, e := range ex {
+			hasOp = hasOp || wdHasOp(e)
+		}
+		if hasOp && wdCyclic(ex) {
+			// ONE Unpack of a whole config evaluates a setting that lies on a reference cycle both inside the cycle (where
+			// an operator sees the re-entered name as a cyclic reference) and outside it, and the per-call cache serves
+			// whichever came first: what the operator "should" see there is not fixed by the properties (DESIGN 0.7,
+			// limits).  The per-setting reads of these worlds are compared; the whole Unpack is only required to return.
+			unpack = map[string]interface{}{"skip": true}
+		}
 		ev := map[string]interface{}{
 			"w":      map[string]interface{}{"root": wdTreeJSON(root), "envs": envsJ, "res": resJ},
 			"reads":  reads,
-			"unpack": wdTyped(o.Unpack),
+			"unpack": unpack,
 		}
 		if err := w.Encode(ev); err != nil {
 			return 2
